@@ -90,7 +90,7 @@ func racePairs(c cacheUnderTest, mem *MemoryCache[vmeta], file *FileCache[vmeta]
 	i := symChoice(len(ops))
 	j := symChoice(len(ops))
 	vRaceBegin()
-	vInterpose(ops[j], 1)
+	vInterpose(ops[j], vParam("interpose", 1))
 	ops[i]()
 	vInterpose(nil, 0)
 	vRaceEnd()
@@ -123,7 +123,7 @@ func HarnessRaceConfigChange() {
 	}
 	// the notification goroutine is queued; it may run at any lock boundary of the store
 	n := vPendingCount()
-	vInterpose(func() { vRunPending() }, 1)
+	vInterpose(func() { vRunPending() }, vParam("interpose", 1))
 	c.Cache(vKeys[0], &symReader{data: []byte{1}, failAt: -1}, now.Add(time.Hour), vmeta{})
 	vInterpose(nil, 0)
 	vRunPending()
